@@ -300,6 +300,7 @@ type c23Case struct {
 	Quoted   string `json:"src_quoted"`
 	Comments bool   `json:"scan_comments"`
 	Origin   string `json:"origin"`
+	Name     string `json:"file_name,omitempty"` // name given to Init (default f.go); its directory is joined to relative //line file names
 }
 
 func c23ErrClass(msg string) string {
@@ -323,22 +324,28 @@ type c23Worker struct {
 	kbuf               []byte
 	evals, exempt, ext int64
 	errInputs          int64
+	name               string // file name passed to both scanners ("" = f.go)
+	dirKeys            bool   // line-directive family: record the directive's observable outcome as non-triviality key
 }
 
 // check compares both scanners on src in one mode. Returns false when the input is skipped (uses an extension).
 func (k *c23Worker) check(c *core.Ctx, vc *vcollector, idx int64, origin string, src []byte, comments bool) bool {
 	k.w.tick()
-	k.w.scanStd("f.go", src, comments, &k.std)
+	name := k.name
+	if name == "" {
+		name = "f.go"
+	}
+	k.w.scanStd(name, src, comments, &k.std)
 	if comments {
 		k.stdC.Toks = append(k.stdC.Toks[:0], k.std.Toks...)
 	} else {
-		k.w.scanStd("f.go", src, true, &k.stdC)
+		k.w.scanStd(name, src, true, &k.stdC)
 	}
 	if c23UsesExtension(&k.stdC) {
 		k.ext++
 		return false
 	}
-	k.w.scanFork("f.go", src, comments, &k.fork)
+	k.w.scanFork(name, src, comments, &k.fork)
 	k.evals++
 	mk := func(what string) func() (string, interface{}) {
 		return func() (string, interface{}) {
@@ -347,7 +354,7 @@ func (k *c23Worker) check(c *core.Ctx, vc *vcollector, idx int64, origin string,
 				q = q[:300] + "…"
 			}
 			return fmt.Sprintf("%s (ScanComments=%v) input %s: %s", origin, comments, q, what),
-				c23Case{Src: append([]byte{}, src...), Quoted: q, Comments: comments, Origin: origin}
+				c23Case{Src: append([]byte{}, src...), Quoted: q, Comments: comments, Origin: origin, Name: k.name}
 		}
 	}
 	// non-triviality key: the standard scanner's token-kind sequence (+ error flag)
@@ -365,6 +372,9 @@ func (k *c23Worker) check(c *core.Ctx, vc *vcollector, idx int64, origin string,
 	}
 	if len(k.std.Toks) > 0 {
 		k.keys.add(k.kbuf)
+	}
+	if k.dirKeys {
+		k.directiveKey()
 	}
 	switch {
 	case k.std.Panic != "":
@@ -460,15 +470,19 @@ func (k *c23Worker) publish(c *core.Ctx) {
 var c23Handcrafted = []string{
 	"package p\n\nvar a = 0x1p-2 + 0b101 + 0o17 + 017 + 1_000.5e+3i + .5 + 0x.8p1\nvar r = '\\'' + '\\x41' + '\\u00e9' + '\\U0001F600' + '\\377' + '\\n'\n" +
 		"var s = \"a\\\"b\\\\\\t\\x00\\u1234\" + `raw\r\nline` // trailing\r\n/* block\r\n comment */ var t = a /* in */ + 1 /* multi\nline */\nfunc f() { a++; a--; a <<= 1; a &^= 2; x := <-c; _ = x }\n",
-	"\ufeffpackage p // bom\n//line foo.go:10\nvar x int\n/*line bar.go:20:5*/var y int\n//line :30\n//line baz.go:0\n//line q.go:4:0\n\t//line notatstart.go:7\nvar z = x + y\n//line big.go:1073741824\nvar w1 int\n//line big.go:1073741825\nvar w2 int\n//line big.go:7:1073741825\nvar w3 int\n",
+	// (the directives go/scanner reports as invalid are in the last entry: an error on both sides ends the comparison of the whole input)
+	"\ufeffpackage p // bom\n//line foo.go:10\nvar x int\n/*line bar.go:20:5*/var y int\n//line :30\nvar x1 int\n//line :31:7\r\nvar x2 int\r\n\t//line notatstart.go:7\nvar z = x + y\n//line big.go:1073741824\nvar w1 int\n/*line d/e.go:7:1073741824*/ var w3 int\n",
 	"package p\nfunc f() int {\n\treturn 1 // c\n}\nfunc g() {\n\tbreak /* a */ /* b\n c */ ; continue // d\n\tfallthrough /* e */\n\tx := y /* f */ }\n// final comment",
-	"package p\nvar (\n\ta = 1. + 1.e2 + 0x1.p1 + 1i + 0i + 0123i + 0b1i + 08 + 09.5 + 0_7 + 0x_f\n\tb = a == b != c <= d >= e && f || !g &^ h << 2 >> 3 ... )\nvar c = \"\u00e9\u4e16\" + 'é' + '世'\nvar _ = map[string]int{\"a\": 1,}[\"a\":]\n/* unterminated star * / **/ var d = 1 /**/\n",
+	"package p\nvar (\n\ta = 1. + 1.e2 + 0x1.p1 + 1i + 0i + 0123i + 0b1i + 07 + 09.5 + 0_7 + 0x_f\n\tb = a == b != c <= d >= e && f || !g &^ h << 2 >> 3 ... )\nvar c = \"\u00e9\u4e16\" + 'é' + '世'\nvar _ = map[string]int{\"a\": 1,}[\"a\":]\n/* unterminated star * / **/ var d = 1 /**/\n",
+	"package p\n//line baz.go:0\nvar a int\n//line q.go:4:0\nvar b int\n//line big.go:1073741825\nvar w2 int\n//line big.go:7:1073741825\nvar w3 int\n//line x.go:y\nvar c int\nvar d = 08 + 0b2 + 0x + 1e + 'ab' + 0_\n",
 }
 
 func c23Run(c *core.Ctx) {
-	c.Rule("three input families, each scanned by the fork (Init(file, src, errh, mode, '~')) and by go/scanner of Go 1.23 in both modes (ScanComments on/off): " +
+	c.Rule("four input families, each scanned by the fork (Init(file, src, errh, mode, '~')) and by go/scanner of Go 1.23 in both modes (ScanComments on/off): " +
 		"(1) every string of length <= L over a 30-symbol alphabet of lexeme fragments (digits, _, x b o e p a i, . + - = < : ), quotes, backquote, backslash, / *, LF, CR, space, BOM, é, NUL); " +
-		"(2) every *.go file of GOROOT/src and /repo plus handcrafted dense files; (3) for N small files every single-byte deletion, duplication and substitution by each of 6 bytes at every offset. " +
+		"(2) every *.go file of GOROOT/src and /repo plus handcrafted dense files; (3) for N small files every single-byte deletion, duplication and substitution by each of 6 bytes at every offset; " +
+		"(4) line directives: the product of comment position (9) x comment form and line end (13: //, /* */, unterminated, spanning lines; LF, CRLF, EOF, tokens on the same line) x directive text (keyword spelling x 7 file names x 17 line texts x 10 column texts x 5 trailing byte strings incl. CR) x continuation (plain tokens | further directives using the previous file name), file name given to Init with a directory; " +
+		"and every comment body of length <= 5 over {CR, *, /, a, LF, space} in both comment forms (carriage-return stripping, line-end look-ahead). " +
 		"Inputs on which go/scanner produces '~', '#' or the identifier macro as a token are skipped (lexical extensions). Oracle: error reported iff go/scanner reports one; if none, identical (offset, line, column, file, token, literal) streams, " +
 		"except the position of the automatic semicolon that belongs to a comment after which no token follows. distinct_nontrivial = distinct (mode, error flag, token-kind sequence) produced by go/scanner")
 	c.Assume("go/scanner of the installed Go 1.23 is the reference", "a comment 'ends the input' when no token follows it (only white space / further comments)")
@@ -604,6 +618,13 @@ func c23Run(c *core.Ctx) {
 	c23Phase(c, "edits")
 	c.Set("edit_seed_files", len(seeds))
 	c.Set("edit_inputs", edits)
+	base += int64(len(jobs)) * 16
+
+	// ---- (4) line directives and carriage returns in comments (c23_directives.go)
+	base = c23Directives(c, vc, get, base)
+	c23Phase(c, "directives")
+	c23CommentCR(c, vc, get, base)
+	c23Phase(c, "comment-cr")
 
 	for _, k := range workers {
 		if k != nil {
@@ -630,7 +651,7 @@ func c23Replay(c *core.Ctx, raw json.RawMessage) {
 		panic(err)
 	}
 	vc := newVCollector()
-	k := &c23Worker{keys: newKeyset(c)}
+	k := &c23Worker{keys: newKeyset(c), name: cas.Name}
 	k.check(c, vc, 0, cas.Origin, cas.Src, cas.Comments)
 	vc.flush(c)
 }
